@@ -1,8 +1,12 @@
 package props
 
 import (
+	"context"
+	"errors"
 	"fmt"
+	"io"
 	"testing"
+	"time"
 
 	"verifharness/bsched"
 	"verifharness/ev"
@@ -68,4 +72,69 @@ func c01SchedReplay(t *testing.T, c *ev.Collector, k c13Case) {
 	schedRoundRobin = k.RR
 	x := runSched(t, k.Prefix, nil, 20000, func(s *bsched.Sched) any { return c13Body(k, s) })
 	fmt.Println("replay:", c13Judge(c, k, x, solo), schedLine(x))
+}
+
+// c01RealEarly replays the scheduled family's early-answer scenario on the
+// real net/http stack (TLS HTTP/2 on loopback): the handler answers after the
+// first request message, the client sends one message, receives to the end of
+// the stream and only then closes its request side.  Real schedules are
+// whatever the runtime produces (repeated, not enumerated): this is the
+// conformance run that keeps memhttp's abort / wake-up rules bound to net/http.
+func c01RealEarly(c *ev.Collector) {
+	const reps = 300
+	idx := 0
+	for _, p := range AllProtos {
+		idx++
+		if !ev.Mine(idx) {
+			continue
+		}
+		cfg := Cfg{Proto: p, Comp: CompDefault, Kind: KBidi, HTTP: 2, ReqMode: memhttp.ReqEager}
+		h := NewHandler(KBidi, func(ctx context.Context, s HStream) error {
+			m, err := s.Receive()
+			if err != nil {
+				return err
+			}
+			return s.Send(&BV{Value: append([]byte{'r'}, m.Value...)})
+		}, cfg.HandlerOptions()...)
+		srv := NewRealServer(h, true)
+		cl := NewRealClient(srv, cfg)
+		fails := map[string]int{}
+		ok := Watchdog(120*time.Second, func() {
+			for i := 0; i < reps; i++ {
+				stream := cl.CallBidiStream(context.Background())
+				if err := stream.Send(&BV{Value: []byte{1, byte(i)}}); err != nil {
+					fails["Send: "+err.Error()]++
+				}
+				if m, err := stream.Receive(); err != nil || len(m.Value) != 3 {
+					fails[fmt.Sprintf("Receive#1: %v", err)]++
+				}
+				if _, err := stream.Receive(); !errors.Is(err, io.EOF) {
+					fails[fmt.Sprintf("Receive#2: %v", err)]++
+				}
+				if err := stream.CloseRequest(); err != nil {
+					fails["CloseRequest: "+err.Error()]++
+				}
+				if err := stream.CloseResponse(); err != nil {
+					fails["CloseResponse: "+err.Error()]++
+				}
+			}
+		})
+		srv.Close()
+		key := fmt.Sprintf("real-early/%s/bidi/x%d", p, reps)
+		c.Case(key, true)
+		c.AddTraces(reps)
+		c.AddTransitions(5 * reps)
+		c.AddStates(5 * reps)
+		c.AddExtra("real_transport_calls", reps)
+		if !ok {
+			c.NotExhaustive("calls over the real transport did not return within 120 s: " + key)
+			return
+		}
+		if len(fails) > 0 {
+			c.Violation("TestC01", "client-clean-end", "error", []string{"proto=" + p.String(), "kind=bidi", "real-transport", "handler-answers-early"}, key, "real transport %s: %v", key, fails)
+			c.Outcome("violation")
+		} else {
+			c.Outcome("ok")
+		}
+	}
 }
